@@ -87,6 +87,14 @@ inductive Expr where
   | not (a : Expr)
   | call0 (f : Str)                 -- `f()`
   | call1 (f : Str) (a : Expr)      -- `f(a)`
+  | fmt1 (s0 : Str) (a : Expr) (s1 : Str)                         -- `'s0%ss1' % a`
+  | fmt2 (s0 : Str) (a : Expr) (s1 : Str) (b : Expr) (s2 : Str)   -- `'s0%ss1%ss2' % (a, b)`
+  | genexp (body : Expr) (x : Str) (src : Expr)
+                                    -- `(body for x in src)`: a NESTED scope.  `src` is evaluated (and `iter()`
+                                    -- applied) where the expression stands; `body` is code of the nested scope
+                                    -- and runs at each `next()` of the generator object, reading every name but
+                                    -- `x` through `__data__` of the globals of its `eval` — the render's Context
+                                    -- as it is THEN.  `map(lambda x: body, src)` (lazy in Python 3) is the same.
   deriving DecidableEq, Repr, Inhabited
 
 inductive Err where
@@ -232,7 +240,23 @@ inductive Val where
   | macro (m : Macro)         -- a function defined by `py:def`
   | gen0 (m : Macro)          -- the generator object `f()` returns: nothing has run yet
   | gen1 (m : Macro) (a : Val)
+  | genx (x : Str) (items : List Atom) (body : Expr)
+                              -- the generator object of `(body for x in src)`: the items `iter(src)` still has,
+                              -- nothing of `body` has run for them.  A mutable object: the model lets it live only
+                              -- in the iterator that consumes it (`It.genexp`, `It.forNextG`), storing it in the
+                              -- context is outside the model
   deriving DecidableEq, Repr, Inhabited
+
+/-- generator objects (consumed by iteration: value semantics would be wrong once two places hold one) -/
+def Val.isGenerator : Val → Bool
+  | .gen0 _ | .gen1 _ _ | .genx _ _ _ => true
+  | _ => false
+
+/-- `iter(value)` for the data values of the fragment -/
+def iterItems : Val → Option (List Atom)
+  | .list xs => some xs
+  | .atom (.str s) => some (s.map fun ch => .str [ch])
+  | _ => none
 
 def Lit.val : Lit → Val
   | .atom a => .atom a
@@ -317,7 +341,7 @@ def callVal (f : Option Val) (arg : Option Val) : Except Err Val :=
   | some (.macro m) =>
     (match arg with
      | none => .ok (.gen0 m)
-     | some a => .ok (.gen1 m a))
+     | some a => if a.isGenerator then .error .unmodelled else .ok (.gen1 m a))
   | some (.opaque _) => .error .unmodelled
   | some _ => .error .typeError
 
@@ -349,5 +373,32 @@ def eval (fs : List Frame) : Expr → Except Err Val
       match eval fs a with
       | .error e => .error e
       | .ok x => callVal (some fv) (some x)
+  | .fmt1 s0 a s1 =>
+    match eval fs a with
+    | .error e => .error e
+    | .ok (.atom x) => .ok (.atom (.str (s0 ++ x.text ++ s1)))
+    | .ok _ => .error .unmodelled
+  | .fmt2 s0 a s1 b s2 =>
+    match eval fs a with
+    | .error e => .error e
+    | .ok x =>
+      match eval fs b with
+      | .error e => .error e
+      | .ok y =>
+        match x, y with
+        | .atom x, .atom y => .ok (.atom (.str (s0 ++ x.text ++ s1 ++ y.text ++ s2)))
+        | _, _ => .error .unmodelled
+  | .genexp body x src =>
+    -- the outermost iterable is evaluated, and `iter()` called on it, at once; the body not at all
+    match eval fs src with
+    | .error e => .error e
+    | .ok v =>
+      match v with
+      | .atom _ | .list _ =>
+        (match iterItems v with
+         | some items => .ok (.genx x items body)
+         | none => .error .typeError)
+      | .opaque _ | .macro _ => .error .typeError
+      | _ => .error .unmodelled
 
 end Genshi.Heap
